@@ -1,6 +1,6 @@
 (* C10 — every exit path leaves no spawned process behind.
-   Property theorems only; proofs are in Proofs/SysProc.v, Proofs/SysRoot.v. *)
-From Zinoma.Proofs Require Import SysProc SysTerm.
+   Property theorems only; proofs are in Proofs/SysProc.v, Proofs/SysRoot.v, Proofs/SysTerm.v, Proofs/SysBound.v. *)
+From Zinoma.Proofs Require Import SysProc SysTerm SysBound.
 
 (* any mode, any interleaving, whichever way out (normal completion, failed target, signal): an actor that has left its
    loop holds neither a build script nor a service process — the kill and the reaping happen before the loop is left *)
@@ -40,3 +40,13 @@ Example C10_nonvacuous :
        LBuildDone 1%N RCancelled; LJoin] = Some s /\
     ph s = PExited SOk /\ hist s = [ObStart 1%N; ObExit 2%N; ObCancel 1%N; ObExit 1%N].
 Proof. eexists. vm_compute. repeat split; reflexivity. Qed.
+
+(* SHUTDOWN COMPLETES (one-shot). Once termination has begun — failed target, normal end, or signal consumed — a continuation
+   of at most Phi(s) steps ends in the exited state with the same status; no continuation is longer (C04_continuations_bounded)
+   and none gets stuck before the exit (C10_shutdown_never_stuck). The number of steps does not depend on any script: a
+   script in progress is cancelled (killed), never awaited. *)
+Theorem C10_oneshot_shutdown_completes :
+  forall (fx : bool) (g : graph) (roots : list tid) (s : sys) (st : status),
+    reachable fx false g roots s -> ph s = PTerminating st ->
+    exists ls s', run_labels fx false s ls = Some s' /\ ph s' = PExited st /\ length ls <= Phi s.
+Proof. exact shutdown_completes. Qed.
